@@ -146,7 +146,9 @@ V_HARNESS(h_reset_init)
 #ifndef OUTN
 #define OUTN 8
 #endif
-#define LOGN 4
+#ifndef LOGN
+#define LOGN 2
+#endif
 struct cblog { unsigned calls; unsigned n[LOGN]; int64_t pts[LOGN]; vbi_sliced lines[LOGN][OUTN]; };
 static vbi_dvb_demux DXA, DXB;
 #ifdef OUT_BYTES      /* R2(f): flat byte backing, for runs in which frame.sp becomes symbolic */
@@ -173,9 +175,28 @@ static vbi_bool log_cb(vbi_dvb_demux *dx, void *ud, const vbi_sliced *sliced, un
   return cb_ret;
 }
 
+/* R2(e) for the PES wrap-around buffer: the SEQ streams only contain 184 byte PES packets (lookahead <= 138), so the
+ * 65552 byte pes_buffer is replaced, for the PES demultiplexer, by an exact-size array of PESCAP bytes (any access
+ * beyond it is a bounds failure).  The TS demultiplexer addresses dx->pes_buffer directly: there the obligations run
+ * on a scaled copy of the unit (runner patch: pes_buffer[ALIGN(6 + 65536)] -> [PESCAP]), stated per obligation. */
+#ifndef PESCAP
+#define PESCAP 192
+#endif
+static uint8_t PESA[PESCAP], PESB[PESCAP];
+#ifdef SCALED_PES_BUFFER
+#define PESBUF(dx) ((dx)->pes_buffer)
+#define PESBUFSZ(dx) (sizeof (dx)->pes_buffer)
+#else
+#define PESBUF(dx) ((dx) == &DXA ? PESA : PESB)
+#define PESBUFSZ(dx) PESCAP
+#endif
+
 static void setup(vbi_dvb_demux *dx, vbi_sliced *out, struct cblog *l, int ts, unsigned pid)
 {
   vbi_dvb_demux_reset(dx);
+#ifndef SCALED_PES_BUFFER
+  if (!ts) { dx->pes_wrap.buffer = PESBUF(dx); dx->pes_wrap.bp = PESBUF(dx); }
+#endif
   dx->demux_packet = ts ? demux_ts_packet : demux_pes_packet;
   dx->ts_pid = pid;
   dx->callback = log_cb; dx->user_data = l;
@@ -187,14 +208,18 @@ static void setup(vbi_dvb_demux *dx, vbi_sliced *out, struct cblog *l, int ts, u
 static void check_inv(const vbi_dvb_demux *dx, const vbi_sliced *out)
 {
   unsigned off = 0;
-  V_ASSERT(dx->pes_wrap.buffer == dx->pes_buffer && in_obj(dx->pes_wrap.bp, dx->pes_buffer, sizeof dx->pes_buffer, &off)
-           && dx->pes_wrap.leftover <= off && dx->pes_wrap.lookahead <= sizeof dx->pes_buffer && dx->pes_wrap.lookahead >= 48, "inv_pes_wrap");
+  if (dx->demux_packet == demux_pes_packet)
+    V_ASSERT(dx->pes_wrap.buffer == PESBUF(dx) && in_obj(dx->pes_wrap.bp, PESBUF(dx), PESBUFSZ(dx), &off)
+             && dx->pes_wrap.leftover <= off && dx->pes_wrap.lookahead >= 48, "inv_pes_wrap");
   V_ASSERT(dx->ts_wrap.buffer == dx->ts_buffer && in_obj(dx->ts_wrap.bp, dx->ts_buffer, sizeof dx->ts_buffer, &off)
            && off + dx->ts_wrap.lookahead <= sizeof dx->ts_buffer, "inv_ts_wrap");
   V_ASSERT(dx->frame.sliced_begin == out && dx->frame.sliced_end == out + OUTN
            && dx->frame.sp >= out && dx->frame.sp <= out + OUTN, "inv_frame_sp");
   V_ASSERT(dx->frame.raw == NULL && dx->frame.raw_offset == 0, "inv_no_raw");
 }
+
+static int same_line(const vbi_sliced *a, const vbi_sliced *b)
+{ unsigned i; int same = a->id == b->id && a->line == b->line; for (i = 0; i < 42; i++) if (a->data[i] != b->data[i]) same = 0; return same; }
 
 /* observable + pending state of two runs over the same byte stream must agree */
 static void check_same(const vbi_dvb_demux *a, const vbi_dvb_demux *b)
@@ -207,7 +232,7 @@ static void check_same(const vbi_dvb_demux *a, const vbi_dvb_demux *b)
       V_ASSERT(LOGA.pts[k] == LOGB.pts[k], "eq_frame_pts");
       for (i = 0; i < OUTN; i++)
         if (i < LOGA.n[k] && i < LOGB.n[k])
-          V_ASSERT(0 == memcmp(&LOGA.lines[k][i], &LOGB.lines[k][i], 8 + 42), "eq_frame_line_contents");
+          V_ASSERT(same_line(&LOGA.lines[k][i], &LOGB.lines[k][i]), "eq_frame_line_contents");
     }
   /* pending frame (delivered by the next frame boundary) and frame state */
   na = (unsigned) (a->frame.sp - a->frame.sliced_begin); nb = (unsigned) (b->frame.sp - b->frame.sliced_begin);
@@ -215,7 +240,7 @@ static void check_same(const vbi_dvb_demux *a, const vbi_dvb_demux *b)
   if (!a->new_frame) {
     V_ASSERT(na == nb, "eq_pending_lines");
     for (i = 0; i < OUTN; i++)
-      if (i < na && i < nb) V_ASSERT(0 == memcmp(&OUTA[i], &OUTB[i], 8 + 42), "eq_pending_line_contents");
+      if (i < na && i < nb) V_ASSERT(same_line(&OUTA[i], &OUTB[i]), "eq_pending_line_contents");
     V_ASSERT(a->frame_pts == b->frame_pts, "eq_pending_frame_pts");
     V_ASSERT(a->frame.last_field == b->frame.last_field && a->frame.last_field_line == b->frame.last_field_line
              && a->frame.last_frame_line == b->frame.last_frame_line && a->frame.last_data_unit_id == b->frame.last_data_unit_id,
@@ -346,7 +371,7 @@ V_HARNESS(h_cor_equiv)
       V_ASSERT(calls < LOGA.calls, "cor_no_extra_frame");
       if (calls < LOGA.calls && calls < LOGN) {
         V_ASSERT(n == LOGA.n[calls] && pts == LOGA.pts[calls], "cor_same_frame_header");
-        for (i = 0; i < OUTN; i++) if (i < n) V_ASSERT(0 == memcmp(&got[i], &LOGA.lines[calls][i], 8 + 42), "cor_same_lines");
+        for (i = 0; i < OUTN; i++) if (i < n) V_ASSERT(same_line(&got[i], &LOGA.lines[calls][i]), "cor_same_lines");
       }
       calls++;
     }
